@@ -134,8 +134,13 @@ class GenInh(Gen):
             elif k < 0.5 and ps:
                 ops.append(["call", [name], [["dec", 1]], "pos"])
             elif k < 0.85:
-                ops.append(["read", rng.choice([["r"], ["s"], ["g"], ["_space", "r"], ["o", "r"],
-                                                ["_model", "A", "r"]])])
+                choices = [["r"], ["s"], ["g"], ["_space", "r"], ["o", "r"], ["_model", "A", "r"]]
+                # references of OTHER spaces (defined or derived there) reached by attribute path
+                for q in self.mir["sp"]:
+                    if list(q) != list(sp) and len(q) == 1:
+                        for rn in ("r", "s"):
+                            choices.append(["_model", q[0], rn])
+                ops.append(["read", rng.choice(choices)])
             else:
                 ops.append(["const", rng.choice([1, 2])])
         return self.new_fid({"ps": ps, "ops": ops, "catch": False, "onerr": 900, "style": "def"})
@@ -143,8 +148,19 @@ class GenInh(Gen):
     # -- operations ----------------------------------------------------------
     def next_op(self):
         rng = self.rng
+        q = getattr(self, "iqueue", None)
+        if q:
+            return q.pop(0)
         w = PROFILES_INH[self.iprofile]
         kinds = list(w)
+        if w.get("invalid", 0) and rng.random() < 0.06:
+            try:
+                sc = self.mk_name_scenario()
+            except (IndexError, KeyError, ValueError):
+                sc = None
+            if sc:
+                self.iqueue = sc[1:]
+                return sc[0]
         for _ in range(60):
             kind = rng.choices(kinds, [w[k] for k in kinds])[0]
             try:
@@ -154,6 +170,57 @@ class GenInh(Gen):
             if op is not None:
                 return op
         return {"op": "set_ref", "s": [], "n": "g", "v": ["int", 71, [], ""], "mode": "auto"}
+
+    def mk_name_scenario(self):
+        """Multi-step situations around name uniqueness (each step is an ordinary operation;
+        the last one is the one that must be refused -- or leave names unique)."""
+        rng = self.rng
+        m = self.mir
+        tops = [p for p in m["sp"] if len(p) == 1]
+        k = rng.randrange(3)
+        if k == 0:
+            # a name that is a cells in one sub space and a reference in ANOTHER sub space
+            cand = [p for p in tops if len([q for q in tops if q != p and tp(p) in self.mro(q)[1:]]) >= 2]
+            if not cand:
+                return None
+            p = rng.choice(cand)
+            subs = [q for q in tops if q != p and tp(p) in self.mro(q)[1:]]
+            q1, q2 = rng.sample(subs, 2)
+            free = [n for n in CELL_NAMES + ["v", "w"] if all(
+                n not in self.enames(s_, "cells") and n not in self.enames(s_, "refs") and n not in self.children(s_)
+                for s_ in [p] + subs)]
+            if not free:
+                return None
+            n = rng.choice(free)
+            self.sigs[n] = self.sigs["x"]          # (the formulas are generated for x's signature)
+            self.rank[n] = self.rank["x"]
+            mk = lambda sp_: {"op": "new_cells", "s": list(sp_), "c": n,
+                              "rec": {"f": self.formula(sp_, "x"), "cached": True, "an": 0}}
+            ref = {"op": "set_ref", "s": list(q2), "n": n, "v": ["int", 8, [], ""], "mode": "auto", "via": "set_ref"}
+            return rng.choice([[mk(q1), ref, dict(mk(p), expect="clash-in-other-sub")],
+                               [ref, mk(q1), dict(mk(p), expect="clash-in-other-sub")]])
+        if k == 1:
+            # a model-level reference named like a child space / a cells of a space, then the
+            # same name assigned in that space
+            cand = [(p, n) for p in m["sp"] for n in self.children(p) + list(m["cells"][tp(p)])
+                    if n not in m["grefs"] and [n] not in m["sp"]]
+            if not cand:
+                return None
+            p, n = rng.choice(cand)
+            if n in m["cells"][tp(p)] and not self.sigs.get(n):
+                return None
+            return [{"op": "set_ref", "s": [], "n": n, "v": ["int", 60, [], ""], "mode": "auto"},
+                    {"op": "set_ref", "s": list(p), "n": n, "v": ["int", 9, [], ""], "mode": "auto",
+                     "via": "attr", "expect": "clash"}]
+        # a space created with references whose names its bases use for cells
+        cand = [b for b in tops if m["cells"][tp(b)]]
+        nm = self.free_space_name()
+        if not cand or not nm:
+            return None
+        b = rng.choice(cand)
+        n = rng.choice(list(m["cells"][tp(b)]))
+        return [{"op": "new_space", "p": [nm], "bases": [list(b)],
+                 "refs": {n: {"v": ["int", 7, [], ""], "mode": "auto"}}, "expect": "clash"}]
 
     def mk_call(self):
         cells = self.all_cells()
@@ -191,7 +258,15 @@ class GenInh(Gen):
             p = [nm]
         tops = [q for q in self.mir["sp"] if len(q) == 1]
         bases = rng.sample(tops, min(len(tops), rng.choice([0, 0, 1, 2]))) if len(p) == 1 else []
-        return {"op": "new_space", "p": p, "bases": [list(b) for b in bases]}
+        op = {"op": "new_space", "p": p, "bases": [list(b) for b in bases]}
+        if rng.random() < 0.2:
+            taken = set()
+            for b in bases:
+                taken |= set(self.enames(b, "cells")) | set(self.enames(b, "refs"))
+            free = [n for n in ("r", "s", "t") if n not in taken]
+            if free:
+                op["refs"] = {rng.choice(free): {"v": ["int", rng.choice([1, 2, 3]), [], ""], "mode": "auto"}}
+        return op
 
     def mk_del_space(self):
         if len(self.mir["sp"]) <= 2:
@@ -223,8 +298,11 @@ class GenInh(Gen):
         c = rng.choice(CELL_NAMES)
         if c in self.mir["cells"][tp(p)]:
             return None
-        return {"op": "new_cells", "s": list(p), "c": c,
-                "rec": {"f": self.formula(p, c), "cached": rng.random() >= self.p_uncached, "an": 0}}
+        op = {"op": "new_cells", "s": list(p), "c": c,
+              "rec": {"f": self.formula(p, c), "cached": rng.random() >= self.p_uncached, "an": 0}}
+        if rng.random() < 0.2:
+            op["via"] = "fname"         # space.new_cells(formula=f): the name comes from f
+        return op
 
     def mk_del_cells(self):
         cand = [(p, c) for p in self.mir["sp"] for c in self.mir["cells"][tp(p)]]
